@@ -49,16 +49,24 @@ deriving DecidableEq, Repr, Inhabited
 def IvMode.ofCode : Nat → Option IvMode
   | 0 => some .ignoreAny | 1 => some .acceptAny | 2 => some .defaultMinMax | 3 => some .ignoreOnFailure | _ => none
 
-/-- the fields of `struct rtr_socket` the protocol code reads and writes -/
-structure Sock where
+/-- connection part of `struct rtr_socket`: what the receive path reads and writes -/
+structure Conn where
   state : SState := .closed
   version : Nat := Gen.RTR_PROTOCOL_MAX_SUPPORTED_VERSION
+  hasReceived : Bool := false
+deriving Repr, Inhabited
+
+/-- session part of `struct rtr_socket` -/
+structure Sess where
   session : Nat := 0
   serial : Nat := 0
   reqSession : Bool := true
   lastUpdate : Int := 0
   isResetting : Bool := false
-  hasReceived : Bool := false
+deriving Repr, Inhabited
+
+/-- the three intervals and the interval mode -/
+structure Timers where
   refresh : Nat := 3600
   retry : Nat := 600
   expire : Nat := 7200
@@ -79,6 +87,13 @@ structure Upd where
   kt : List KeyRec
 deriving Inhabited
 
+/-- the two tables (all sources; `src` 0 = this socket) and the shadow tables of a reload in progress -/
+structure Tbl where
+  pt : List Rec := []
+  kt : List KeyRec := []
+  shadow : Option Upd := none
+deriving Inhabited
+
 inductive TapeEv where
   | rx (bytes : List Nat)
   | err | block | intr | closed
@@ -89,21 +104,25 @@ inductive SendEv where
   | all | part (n : Nat) | err | block
 deriving Repr
 
-/-- socket + environment (transport script, clock, tables, trace) -/
-structure St where
-  s : Sock := {}
+/-- the environment: scripted transport, clock, trace (most recent line first) -/
+structure Net where
   tape : List TapeEv := []
   sendQ : List SendEv := []
   openQ : List Int := []
   now : Int := 1000
-  trace : List String := []          -- most recent first
-  pt : List Rec := []                -- prefix table: records of all sources (`src` 0 = this socket)
-  kt : List KeyRec := []             -- router-key table
-  shadow : Option Upd := none        -- shadow tables while a reload is being applied
+  trace : List String := []
   threaded : Bool := false
 deriving Inhabited
 
-def St.emit (st : St) (line : String) : St := { st with trace := line :: st.trace }
+structure St where
+  c : Conn := {}
+  ss : Sess := {}
+  tm : Timers := {}
+  n : Net := {}
+  t : Tbl := {}
+deriving Inhabited
+
+def Net.emit (n : Net) (line : String) : Net := { n with trace := line :: n.trace }
 
 /-! ## tables as sets -/
 
@@ -113,6 +132,17 @@ def ptSrcRemove (t : List Rec) (src : Nat) : List Rec := t.filter fun r => r.src
 def ktAdd (t : List KeyRec) (r : KeyRec) : List KeyRec × PfxRc := if r ∈ t then (t, .duplicate) else (r :: t, .success)
 def ktRemove (t : List KeyRec) (r : KeyRec) : List KeyRec × PfxRc := if r ∈ t then (t.erase r, .success) else (t, .notFound)
 def ktSrcRemove (t : List KeyRec) (src : Nat) : List KeyRec := t.filter fun r => r.src != src
+
+/-- number of records of this socket in the live tables (what a state callback can see) -/
+def Tbl.own (t : Tbl) : Nat :=
+  (t.pt.filter (fun (r : Rec) => r.src == 0)).length + (t.kt.filter (fun (r : KeyRec) => r.src == 0)).length
+
+/-- the tables a synchronisation writes to: the shadow ones during a reload, else the live ones -/
+def Tbl.upd (t : Tbl) : Upd := match t.shadow with | some u => u | none => ⟨t.pt, t.kt⟩
+def Tbl.setUpd (t : Tbl) (u : Upd) : Tbl :=
+  match t.shadow with | some _ => { t with shadow := some u } | none => { t with pt := u.pt, kt := u.kt }
+/-- remove this socket's records from the live tables -/
+def Tbl.purge (t : Tbl) : Tbl := { t with pt := ptSrcRemove t.pt 0, kt := ktSrcRemove t.kt 0 }
 
 /-! ## bytes -/
 
@@ -132,99 +162,96 @@ def hex (b : List Nat) : String := Proto.bytesToHex b
 
 /-! ## state changes -/
 
-/-- `rtr_change_socket_state` -/
-def changeState (st : St) (n : SState) : St :=
-  if st.s.state = n then st
-  else if st.s.state = .shutdown then st
-  else ({ st with s := { st.s with state := n } }).emit
-    s!"S {n.name} {st.now} {(st.pt.filter (fun (r : Rec) => r.src == 0)).length + (st.kt.filter (fun (r : KeyRec) => r.src == 0)).length}"
+/-- `rtr_change_socket_state`; `own` = number of this socket's records the callback can see -/
+def changeState (c : Conn) (n : Net) (own : Nat) (new : SState) : Conn × Net :=
+  if c.state = new then (c, n)
+  else if c.state = .shutdown then (c, n)
+  else ({ c with state := new }, n.emit s!"S {new.name} {n.now} {own}")
 
 /-! ## scripted transport -/
 
-/-- one `tr_recv(len, timeout)` call: result code (bytes delivered, or a negative tr_rtvals),
-    the bytes, the new state -/
-def trRecv (st : St) (len : Nat) (timeout : Int) : Int × List Nat × St :=
-  let rec go (tape : List TapeEv) (now : Int) : Int × List Nat × St :=
-    match tape with
-    | [] =>
-      let st' := ({ st with tape := [], now := now }).emit s!"R {len} {timeout} -> eof"
-      -- end of script: a stop request is observed (threaded runs), the call fails
-      (-1, [], if st.threaded then { st' with s := { st'.s with state := .shutdown } } else st')
-    | .dt n :: rest => go rest (now + n)
-    | .rx bytes :: rest =>
-      let n := min bytes.length len
-      let got := bytes.take n
-      let left := bytes.drop n
-      let tape' := if left.isEmpty then rest else .rx left :: rest
-      (n, got, ({ st with tape := tape', now := now }).emit s!"R {len} {timeout} -> {n} {hex got}")
-    | .err :: rest => (-1, [], ({ st with tape := rest, now := now }).emit s!"R {len} {timeout} -> -1")
-    | .block :: rest =>
-      (-2, [], ({ st with tape := rest, now := if timeout > 0 then now + timeout else now }).emit s!"R {len} {timeout} -> -2")
-    | .intr :: rest => (-3, [], ({ st with tape := rest, now := now }).emit s!"R {len} {timeout} -> -3")
-    | .closed :: rest => (-4, [], ({ st with tape := rest, now := now }).emit s!"R {len} {timeout} -> -4")
-  go st.tape st.now
+/-- one `tr_recv(len, timeout)` call: result code (bytes delivered, or a negative tr_rtvals), the
+    bytes, the environment, and whether a stop request was observed (end of script, threaded run) -/
+def trRecvGo (n0 : Net) (len : Nat) (timeout : Int) : List TapeEv → Int → Int × List Nat × Net × Bool
+  | [], now =>
+    (-1, [], ({ n0 with tape := [], now := now }).emit s!"R {len} {timeout} -> eof", n0.threaded)
+  | .dt d :: rest, now => trRecvGo n0 len timeout rest (now + d)
+  | .rx bytes :: rest, now =>
+    let k := min bytes.length len
+    let got := bytes.take k
+    let left := bytes.drop k
+    let tape' := if left.isEmpty then rest else .rx left :: rest
+    (k, got, ({ n0 with tape := tape', now := now }).emit s!"R {len} {timeout} -> {k} {hex got}", false)
+  | .err :: rest, now => (-1, [], ({ n0 with tape := rest, now := now }).emit s!"R {len} {timeout} -> -1", false)
+  | .block :: rest, now =>
+    (-2, [], ({ n0 with tape := rest, now := if timeout > 0 then now + timeout else now }).emit s!"R {len} {timeout} -> -2", false)
+  | .intr :: rest, now => (-3, [], ({ n0 with tape := rest, now := now }).emit s!"R {len} {timeout} -> -3", false)
+  | .closed :: rest, now => (-4, [], ({ n0 with tape := rest, now := now }).emit s!"R {len} {timeout} -> -4", false)
+
+def trRecv (n : Net) (len : Nat) (timeout : Int) : Int × List Nat × Net × Bool :=
+  trRecvGo n len timeout n.tape n.now
+
+/-- the loop of `tr_recv_all`: `acc` = bytes so far -/
+def recvAllLoop (len : Nat) (endTime : Int) : Nat → Net → List Nat → Int × List Nat × Net × Bool
+  | 0, n, acc => (acc.length, acc, n, false)
+  | fuel + 1, n, acc =>
+    if acc.length < len then
+      match trRecv n (len - acc.length) (endTime - n.now) with
+      | (rc, got, n', stop) => if rc < 0 then (rc, acc, n', stop) else recvAllLoop len endTime fuel n' (acc ++ got)
+    else (acc.length, acc, n, false)
 
 /-- `tr_recv_all(len, timeout)`: the negative code of the first failing call, or `len` -/
-def recvAll (st : St) (len : Nat) (timeout : Int) : Int × List Nat × St :=
-  let endTime := st.now + timeout
-  let rec loop (fuel : Nat) (st : St) (acc : List Nat) : Int × List Nat × St :=
-    match fuel with
-    | 0 => (acc.length, acc, st)
-    | fuel + 1 =>
-      if acc.length < len then
-        let (rc, got, st') := trRecv st (len - acc.length) (endTime - st.now)
-        if rc < 0 then (rc, acc, st') else loop fuel st' (acc ++ got)
-      else (acc.length, acc, st)
-  loop (len + 1) st []
+def recvAll (n : Net) (len : Nat) (timeout : Int) : Int × List Nat × Net × Bool :=
+  recvAllLoop len (n.now + timeout) (len + 1) n []
 
 /-- one `tr_send(len)` call -/
-def trSend (st : St) (bytes : List Nat) : Int × St :=
+def trSend (n : Net) (bytes : List Nat) : Int × Net :=
   let len := bytes.length
-  match st.sendQ with
-  | .err :: q => (-1, ({ st with sendQ := q }).emit s!"W {len} -> -1")
-  | .block :: q => (-2, ({ st with sendQ := q }).emit s!"W {len} -> -2")
+  match n.sendQ with
+  | .err :: q => (-1, ({ n with sendQ := q }).emit s!"W {len} -> -1")
+  | .block :: q => (-2, ({ n with sendQ := q }).emit s!"W {len} -> -2")
   | .part k :: q =>
-    let n := if min k len = 0 then 1 else min k len
-    (n, ({ st with sendQ := q }).emit s!"W {len} -> {n} {hex (bytes.take n)}")
-  | .all :: q => (len, ({ st with sendQ := q }).emit s!"W {len} -> {len} {hex bytes}")
-  | [] => (len, st.emit s!"W {len} -> {len} {hex bytes}")
+    let m := if min k len = 0 then 1 else min k len
+    (m, ({ n with sendQ := q }).emit s!"W {len} -> {m} {hex (bytes.take m)}")
+  | .all :: q => (len, ({ n with sendQ := q }).emit s!"W {len} -> {len} {hex bytes}")
+  | [] => (len, n.emit s!"W {len} -> {len} {hex bytes}")
 
-/-- `tr_send_all` -/
-def sendAll (st : St) (bytes : List Nat) : Int × St :=
-  let rec loop (fuel : Nat) (st : St) (rest : List Nat) (total : Nat) : Int × St :=
-    match fuel with
-    | 0 => (total, st)
-    | fuel + 1 =>
-      if rest.isEmpty then (total, st)
-      else
-        let (rc, st') := trSend st rest
-        if rc < 0 then (rc, st') else loop fuel st' (rest.drop rc.toNat) (total + rc.toNat)
-  loop (bytes.length + 1) st bytes 0
+/-- the loop of `tr_send_all` -/
+def sendAllLoop : Nat → Net → List Nat → Nat → Int × Net
+  | 0, n, _, total => (total, n)
+  | fuel + 1, n, rest, total =>
+    if rest.isEmpty then (total, n)
+    else
+      match trSend n rest with
+      | (rc, n') => if rc < 0 then (rc, n') else sendAllLoop fuel n' (rest.drop rc.toNat) (total + rc.toNat)
+
+def sendAll (n : Net) (bytes : List Nat) : Int × Net := sendAllLoop (bytes.length + 1) n bytes 0
 
 /-- `rtr_send_pdu` (the argument is already in network byte order): `true` = RTR_SUCCESS -/
-def sendPdu (st : St) (bytes : List Nat) : Bool × St :=
-  if st.s.state = .shutdown then (false, st)
+def sendPdu (c : Conn) (n : Net) (bytes : List Nat) : Bool × Net :=
+  if c.state = .shutdown then (false, n)
   else
-    let (rc, st') := sendAll st bytes
-    (decide (rc > 0), st')
+    match sendAll n bytes with
+    | (rc, n') => (decide (rc > 0), n')
 
 /-! ## Error Reports -/
 
+/-- the bytes of an Error Report PDU -/
+def errorPduBytes (ver : Nat) (enc : List Nat) (code : Nat) (text : List Nat) : List Nat :=
+  [ver % 256, 10] ++ toBE16 code ++ toBE32 (16 + enc.length + text.length) ++ toBE32 enc.length ++ enc ++
+    toBE32 text.length ++ text
+
 /-- `rtr_send_error_pdu`: `enc` = the erroneous PDU in network byte order -/
-def sendErrorPdu (st : St) (enc : List Nat) (code : Nat) (text : List Nat) : Bool × St :=
-  if enc.length ≥ 2 ∧ enc.getD 1 0 = 10 then (true, st)        -- never answer an Error Report
-  else
-    let len := 16 + enc.length + text.length
-    let pdu := [st.s.version % 256, 10] ++ toBE16 code ++ toBE32 len ++ toBE32 enc.length ++ enc ++
-      toBE32 text.length ++ text
-    sendPdu st pdu
+def sendErrorPdu (c : Conn) (n : Net) (enc : List Nat) (code : Nat) (text : List Nat) : Bool × Net :=
+  if enc.length ≥ 2 ∧ enc.getD 1 0 = 10 then (true, n)        -- never answer an Error Report
+  else sendPdu c n (errorPduBytes c.version enc code text)
 
 /-- `rtr_send_error_pdu_from_host(pdu, len)`: `raw` = the bytes of the PDU as received (see the
     file header), `k` = `erroneous_pdu_len` -/
-def sendErrorFromHost (st : St) (raw : List Nat) (k : Nat) (code : Nat) (text : List Nat) : Bool × St :=
-  if k = 0 then sendErrorPdu st [] code text
-  else if k < 8 then (false, st)
-  else sendErrorPdu st (raw.take k) code text
+def sendErrorFromHost (c : Conn) (n : Net) (raw : List Nat) (k : Nat) (code : Nat) (text : List Nat) : Bool × Net :=
+  if k = 0 then sendErrorPdu c n [] code text
+  else if k < 8 then (false, n)
+  else sendErrorPdu c n (raw.take k) code text
 
 /-! ## PDU checks -/
 
@@ -264,79 +291,87 @@ deriving Repr
 def txtCorrupt : List Nat := cstr "corrupt data received, length value in PDU is too small"
 def txtTooBig : List Nat := cstr s!"PDU too big, max. PDU size is: {Gen.RTR_MAX_PDU_LEN} bytes"
 
-/-- the `error:` label of `rtr_receive_pdu` for a negative transport code -/
-def recvTransportError (st : St) (code : Int) : RecvRes × St :=
-  if code = -1 then (.rc (-1), changeState st .errTransport)
-  else if code = -2 then (.rc (-2), st)
-  else if code = -3 then (.rc (-3), st)
-  else if code = -4 then (.rc (-4), changeState st .errFatal)      -- TR_CLOSED is handed to the caller
-  else (.rc (-1), changeState st .errFatal)
+/-- a stop request observed by the transport (`rtr_stop` sets the state first) -/
+def applyStop (c : Conn) (stop : Bool) : Conn := if stop then { c with state := .shutdown } else c
 
-/-- `rtr_receive_pdu(timeout)` -/
-def receivePdu (st : St) (timeout : Int) : RecvRes × St :=
-  if st.s.state = .shutdown then (.rc (-1), st)
+/-- the `error:` label of `rtr_receive_pdu` for a negative transport code -/
+def recvTransportError (c : Conn) (n : Net) (own : Nat) (code : Int) : RecvRes × Conn × Net :=
+  if code = -1 then
+    match changeState c n own .errTransport with | (c, n) => (.rc (-1), c, n)
+  else if code = -2 then (.rc (-2), c, n)
+  else if code = -3 then (.rc (-3), c, n)
+  else if code = -4 then
+    match changeState c n own .errFatal with | (c, n) => (.rc (-4), c, n)     -- TR_CLOSED is handed to the caller
   else
-    let (rc, hdr, st) := recvAll st 8 timeout
-    if rc < 0 then recvTransportError st rc
+    match changeState c n own .errFatal with | (c, n) => (.rc (-1), c, n)
+
+/-- `rtr_receive_pdu(timeout)`; `own` as for `changeState` (the tables are not touched) -/
+def receivePdu (c : Conn) (n : Net) (own : Nat) (timeout : Int) : RecvRes × Conn × Net :=
+  if c.state = .shutdown then (.rc (-1), c, n)
+  else
+    match recvAll n 8 timeout with
+    | (rc, hdr, n, stop) =>
+    let c := applyStop c stop
+    if rc < 0 then recvTransportError c n own rc
     else
       let len := lenOf hdr
       if len < 8 then
-        let (_, st) := sendErrorPdu st hdr 0 txtCorrupt
-        (.rc (-1), changeState st .errFatal)
+        match sendErrorPdu c n hdr 0 txtCorrupt with
+        | (_, n) => match changeState c n own .errFatal with | (c, n) => (.rc (-1), c, n)
       else if len > Gen.RTR_MAX_PDU_LEN then
-        let (_, st) := sendErrorPdu st hdr 0 txtTooBig
-        (.rc (-1), changeState st .errFatal)
+        match sendErrorPdu c n hdr 0 txtTooBig with
+        | (_, n) => match changeState c n own .errFatal with | (c, n) => (.rc (-1), c, n)
       else
         -- live downgrade on the first PDU of a connection
-        let st :=
-          if !st.s.hasReceived then
-            let v := if st.s.version = 1 ∧ verOf hdr = 0 ∧ typeOf hdr ≠ 10 then 0 else st.s.version
-            { st with s := { st.s with version := v, hasReceived := true } }
-          else st
-        if verOf hdr ≠ st.s.version ∧ typeOf hdr ≠ 10 then
-          let (_, st) := sendErrorPdu st hdr 8 []
-          (.rc (-1), st)                                    -- no state change
+        let c :=
+          if !c.hasReceived then
+            let v := if c.version = 1 ∧ verOf hdr = 0 ∧ typeOf hdr ≠ 10 then 0 else c.version
+            { c with version := v, hasReceived := true }
+          else c
+        if verOf hdr ≠ c.version ∧ typeOf hdr ≠ 10 then
+          match sendErrorPdu c n hdr 8 [] with
+          | (_, n) => (.rc (-1), c, n)                                    -- no state change
         else
           let remaining := len - 8
-          let (rc2, body, st) :=
-            if remaining > 0 then
-              if st.s.state = .shutdown then ((-100 : Int), ([] : List Nat), st)
-              else recvAll st remaining Gen.RTR_RECV_TIMEOUT
-            else ((0 : Int), ([] : List Nat), st)
-          if rc2 = -100 then (.rc (-1), st)
-          else if rc2 < 0 then recvTransportError st rc2
+          if remaining > 0 ∧ c.state = .shutdown then (.rc (-1), c, n)
           else
-            let raw := hdr ++ body
-            if !checkSize raw then
-              let (_, st) := sendErrorPdu st hdr 0 txtCorrupt
-              (.rc (-1), changeState st .errFatal)
-            else (.ok raw, st)
+            match (if remaining > 0 then recvAll n remaining Gen.RTR_RECV_TIMEOUT
+                   else ((0 : Int), ([] : List Nat), n, false)) with
+            | (rc2, body, n, stop2) =>
+            let c := applyStop c stop2
+            if rc2 < 0 then recvTransportError c n own rc2
+            else
+              let raw := hdr ++ body
+              if !checkSize raw then
+                match sendErrorPdu c n hdr 0 txtCorrupt with
+                | (_, n) => match changeState c n own .errFatal with | (c, n) => (.rc (-1), c, n)
+              else (.ok raw, c, n)
 
 /-! ## handlers -/
 
 /-- `rtr_handle_error_pdu` -/
-def handleErrorPdu (st : St) (raw : List Nat) : St :=
+def handleErrorPdu (c : Conn) (n : Net) (own : Nat) (raw : List Nat) : Conn × Net :=
   let code := be16 raw 2
-  if code = 2 then changeState st .errNoData
+  if code = 2 then changeState c n own .errNoData
   else if code = 4 then
     let v := verOf raw
-    if v ≤ Gen.RTR_PROTOCOL_MAX_SUPPORTED_VERSION ∧ v ≥ Gen.RTR_PROTOCOL_MIN_SUPPORTED_VERSION ∧ v < st.s.version then
-      changeState { st with s := { st.s with version := v } } .fastReconnect
-    else changeState st .errFatal
-  else changeState st .errFatal
+    if v ≤ Gen.RTR_PROTOCOL_MAX_SUPPORTED_VERSION ∧ v ≥ Gen.RTR_PROTOCOL_MIN_SUPPORTED_VERSION ∧ v < c.version then
+      changeState { c with version := v } n own .fastReconnect
+    else changeState c n own .errFatal
+  else changeState c n own .errFatal
 
 def txtWrongSession : List Nat := cstr "Wrong session_id in Cache Response PDU"
 
 /-- `rtr_handle_cache_response_pdu`: `true` = RTR_SUCCESS -/
-def handleCacheResponse (st : St) (raw : List Nat) : Bool × St :=
+def handleCacheResponse (c : Conn) (ss : Sess) (n : Net) (own : Nat) (raw : List Nat) : Bool × Conn × Sess × Net :=
   let sess := be16 raw 2
-  if st.s.reqSession then
-    let s := if st.s.lastUpdate ≠ 0 then { st.s with isResetting := true } else st.s
-    (true, { st with s := { s with session := sess } })
-  else if st.s.session ≠ sess then
-    let (_, st) := sendErrorFromHost st [] 0 0 txtWrongSession
-    (false, changeState st .errFatal)
-  else (true, st)
+  if ss.reqSession then
+    let ss := if ss.lastUpdate ≠ 0 then { ss with isResetting := true } else ss
+    (true, c, { ss with session := sess }, n)
+  else if ss.session ≠ sess then
+    match sendErrorFromHost c n [] 0 0 txtWrongSession with
+    | (_, n) => match changeState c n own .errFatal with | (c, n) => (false, c, ss, n)
+  else (true, c, ss, n)
 
 /-- `rtr_prefix_pdu_2_pfx_record` (source 0 = this socket) -/
 def pfxRecOf (raw : List Nat) : Rec :=
@@ -351,89 +386,80 @@ def flagsOf (raw : List Nat) : Nat := if typeOf raw = 9 then raw.getD 2 0 else r
 def txtBadFlagsPfx : List Nat := cstr "Prefix PDU with invalid flags value received"
 def txtBadLenPfx : List Nat := cstr "Prefix PDU with invalid length value received"
 def txtBadFlagsKey : List Nat := cstr "Router Key PDU with invalid flags value received"
-def txtPfxTable : List Nat := cstr "PFX_TABLE Error"
-
-/-- the tables a synchronisation writes to: the shadow ones during a reload, else the live ones -/
-def St.upd (st : St) : Upd := match st.shadow with | some u => u | none => ⟨st.pt, st.kt⟩
-def St.setUpd (st : St) (u : Upd) : St :=
-  match st.shadow with | some _ => { st with shadow := some u } | none => { st with pt := u.pt, kt := u.kt }
 
 /-- `rtr_update_pfx_table`: `true` = success -/
-def updatePfx (st : St) (raw : List Nat) : Bool × St :=
+def updatePfx (c : Conn) (n : Net) (t : Tbl) (raw : List Nat) : Bool × Conn × Net × Tbl :=
   let r := pfxRecOf raw
   let maxBits := if r.v6 then 128 else 32
   if r.len > maxBits ∨ r.maxLen > maxBits then
-    let (_, st) := sendErrorFromHost st raw raw.length 0 txtBadLenPfx
-    (false, st)
+    match sendErrorFromHost c n raw raw.length 0 txtBadLenPfx with | (_, n) => (false, c, n, t)
   else if flagsOf raw ≠ 0 ∧ flagsOf raw ≠ 1 then
-    let (_, st) := sendErrorFromHost st raw raw.length 0 txtBadFlagsPfx
-    (false, st)
+    match sendErrorFromHost c n raw raw.length 0 txtBadFlagsPfx with | (_, n) => (false, c, n, t)
   else
-    let u := st.upd
-    let (pt', rc) := if flagsOf raw = 1 then ptAdd u.pt r else ptRemove u.pt r
-    match rc with
-    | .duplicate =>
-      let (_, st) := sendErrorFromHost st raw raw.length 7 []
-      (false, changeState st .errFatal)
-    | .notFound =>
-      let (_, st) := sendErrorFromHost st raw raw.length 6 []
-      (false, changeState st .errFatal)
-    | .error => (false, st)
-    | .success => (true, st.setUpd { u with pt := pt' })
+    let u := t.upd
+    match (if flagsOf raw = 1 then ptAdd u.pt r else ptRemove u.pt r) with
+    | (_, .duplicate) =>
+      match sendErrorFromHost c n raw raw.length 7 [] with
+      | (_, n) => match changeState c n t.own .errFatal with | (c, n) => (false, c, n, t)
+    | (_, .notFound) =>
+      match sendErrorFromHost c n raw raw.length 6 [] with
+      | (_, n) => match changeState c n t.own .errFatal with | (c, n) => (false, c, n, t)
+    | (_, .error) => (false, c, n, t)
+    | (pt', .success) => (true, c, n, t.setUpd { u with pt := pt' })
 
 /-- `rtr_update_spki_table` -/
-def updateKey (st : St) (raw : List Nat) : Bool × St :=
+def updateKey (c : Conn) (n : Net) (t : Tbl) (raw : List Nat) : Bool × Conn × Net × Tbl :=
   let r := keyRecOf raw
   if flagsOf raw ≠ 0 ∧ flagsOf raw ≠ 1 then
-    let (_, st) := sendErrorFromHost st raw raw.length 0 txtBadFlagsKey
-    (false, st)
+    match sendErrorFromHost c n raw raw.length 0 txtBadFlagsKey with | (_, n) => (false, c, n, t)
   else
-    let u := st.upd
-    let (kt', rc) := if flagsOf raw = 1 then ktAdd u.kt r else ktRemove u.kt r
-    match rc with
-    | .duplicate =>
-      let (_, st) := sendErrorFromHost st raw raw.length 7 []
-      (false, changeState st .errFatal)
-    | .notFound =>
-      let (_, st) := sendErrorFromHost st raw raw.length 6 []
-      (false, changeState st .errFatal)
-    | .error => (false, st)
-    | .success => (true, st.setUpd { u with kt := kt' })
+    let u := t.upd
+    match (if flagsOf raw = 1 then ktAdd u.kt r else ktRemove u.kt r) with
+    | (_, .duplicate) =>
+      match sendErrorFromHost c n raw raw.length 7 [] with
+      | (_, n) => match changeState c n t.own .errFatal with | (c, n) => (false, c, n, t)
+    | (_, .notFound) =>
+      match sendErrorFromHost c n raw raw.length 6 [] with
+      | (_, n) => match changeState c n t.own .errFatal with | (c, n) => (false, c, n, t)
+    | (_, .error) => (false, c, n, t)
+    | (kt', .success) => (true, c, n, t.setUpd { u with kt := kt' })
 
 /-- `rtr_undo_update_pfx_table`: the inverse operation; `true` = PFX_SUCCESS -/
-def undoPfx (st : St) (raw : List Nat) : Bool × St :=
+def undoPfx (t : Tbl) (raw : List Nat) : Bool × Tbl :=
   let r := pfxRecOf raw
-  let u := st.upd
-  let (pt', rc) := if flagsOf raw = 1 then ptRemove u.pt r else ptAdd u.pt r
-  if rc == .success then (true, st.setUpd { u with pt := pt' }) else (false, st)
+  let u := t.upd
+  match (if flagsOf raw = 1 then ptRemove u.pt r else ptAdd u.pt r) with
+  | (pt', .success) => (true, t.setUpd { u with pt := pt' })
+  | _ => (false, t)
 
-def undoKey (st : St) (raw : List Nat) : Bool × St :=
+def undoKey (t : Tbl) (raw : List Nat) : Bool × Tbl :=
   let r := keyRecOf raw
-  let u := st.upd
-  let (kt', rc) := if flagsOf raw = 1 then ktRemove u.kt r else ktAdd u.kt r
-  if rc == .success then (true, st.setUpd { u with kt := kt' }) else (false, st)
+  let u := t.upd
+  match (if flagsOf raw = 1 then ktRemove u.kt r else ktAdd u.kt r) with
+  | (kt', .success) => (true, t.setUpd { u with kt := kt' })
+  | _ => (false, t)
 
 /-- forward-order undo of a list of PDUs, stopping at the first failure: `true` = all undone -/
-def undoAllPfx (st : St) : List (List Nat) → Bool × St
-  | [] => (true, st)
-  | p :: ps => let (ok, st') := undoPfx st p; if ok then undoAllPfx st' ps else (false, st')
+def undoAllPfx (t : Tbl) : List (List Nat) → Bool × Tbl
+  | [] => (true, t)
+  | p :: ps => match undoPfx t p with | (ok, t') => if ok then undoAllPfx t' ps else (false, t')
 
-def undoAllKey (st : St) : List (List Nat) → Bool × St
-  | [] => (true, st)
-  | p :: ps => let (ok, st') := undoKey st p; if ok then undoAllKey st' ps else (false, st')
+def undoAllKey (t : Tbl) : List (List Nat) → Bool × Tbl
+  | [] => (true, t)
+  | p :: ps => match undoKey t p with | (ok, t') => if ok then undoAllKey t' ps else (false, t')
 
 /-- apply a list of PDUs in order; on the first failure return the PDUs applied so far -/
-def applyPfx (st : St) : List (List Nat) → List (List Nat) → Bool × St × List (List Nat)
-  | [], done => (true, st, done)
+def applyPfx (c : Conn) (n : Net) (t : Tbl) : List (List Nat) → List (List Nat) → Bool × Conn × Net × Tbl × List (List Nat)
+  | [], done => (true, c, n, t, done)
   | p :: ps, done =>
-    let (ok, st') := updatePfx st p
-    if ok then applyPfx st' ps (done ++ [p]) else (false, st', done)
+    match updatePfx c n t p with
+    | (ok, c', n', t') => if ok then applyPfx c' n' t' ps (done ++ [p]) else (false, c', n', t', done)
 
-def applyKey (st : St) : List (List Nat) → List (List Nat) → Bool × St × List (List Nat)
-  | [], done => (true, st, done)
+def applyKey (c : Conn) (n : Net) (t : Tbl) : List (List Nat) → List (List Nat) → Bool × Conn × Net × Tbl × List (List Nat)
+  | [], done => (true, c, n, t, done)
   | p :: ps, done =>
-    let (ok, st') := updateKey st p
-    if ok then applyKey st' ps (done ++ [p]) else (false, st', done)
+    match updateKey c n t p with
+    | (ok, c', n', t') => if ok then applyKey c' n' t' ps (done ++ [p]) else (false, c', n', t', done)
 
 /-! ## intervals (End of Data, protocol version 1) -/
 
@@ -442,12 +468,12 @@ def applyIv (mode : IvMode) (cur val lo hi : Nat) : Nat :=
   else if mode = .defaultMinMax then (if val < lo then lo else hi)
   else cur
 
-def applyEodIntervals (s : Sock) (raw : List Nat) : Sock :=
-  if verOf raw = 1 ∧ s.ivMode ≠ .ignoreAny then
-    let s := { s with expire := applyIv s.ivMode s.expire (be32 raw 20) Gen.RTR_EXPIRATION_MIN Gen.RTR_EXPIRATION_MAX }
-    let s := { s with refresh := applyIv s.ivMode s.refresh (be32 raw 12) Gen.RTR_REFRESH_MIN Gen.RTR_REFRESH_MAX }
-    { s with retry := applyIv s.ivMode s.retry (be32 raw 16) Gen.RTR_RETRY_MIN Gen.RTR_RETRY_MAX }
-  else s
+def applyEodIntervals (tm : Timers) (raw : List Nat) : Timers :=
+  if verOf raw = 1 ∧ tm.ivMode ≠ .ignoreAny then
+    let tm := { tm with expire := applyIv tm.ivMode tm.expire (be32 raw 20) Gen.RTR_EXPIRATION_MIN Gen.RTR_EXPIRATION_MAX }
+    let tm := { tm with refresh := applyIv tm.ivMode tm.refresh (be32 raw 12) Gen.RTR_REFRESH_MIN Gen.RTR_REFRESH_MAX }
+    { tm with retry := applyIv tm.ivMode tm.retry (be32 raw 16) Gen.RTR_RETRY_MIN Gen.RTR_RETRY_MAX }
+  else tm
 
 /-! ## rtr_sync_receive_and_store_pdus -/
 
@@ -459,125 +485,167 @@ def txtEodSession (exp got : Nat) : List Nat :=
 def txtUnexpectedSync : List Nat := cstr "Unexpected PDU received during data synchronisation"
 def txtUnexpectedSync2 : List Nat := cstr "Unexpected PDU received in data synchronisation"
 
-/-- what the End of Data branch does once the PDUs are buffered: returns success and the new state -/
-def applyBuffered (st : St) (eod : List Nat) (v4 v6 keys : List (List Nat)) : Bool × St :=
-  let st := { st with s := applyEodIntervals st.s eod }
+/-- result of the table part of the End of Data branch -/
+structure ApplyRes where
+  ok : Bool
+  purged : Bool        -- the undo did not restore: this socket's records were purged, a new session is requested
+  c : Conn
+  n : Net
+  t : Tbl
+
+/-- the table part of the End of Data branch, once the PDUs are buffered: apply the three arrays in
+    order; on a failure undo in forward order, purge if the undo fails -/
+def applyTables (c : Conn) (n : Net) (t : Tbl) (resetting : Bool) (v4 v6 keys : List (List Nat)) : ApplyRes :=
   -- shadow tables: copies without this socket's records
-  let st := if st.s.isResetting then { st with shadow := some ⟨ptSrcRemove st.pt 0, ktSrcRemove st.kt 0⟩ } else st
-  -- failure after an undo that did not restore: purge this socket's records from the live tables
-  let purge := fun (st : St) => { st with pt := ptSrcRemove st.pt 0, kt := ktSrcRemove st.kt 0,
-                                          s := { st.s with reqSession := true } }
-  let (ok4, st, done4) := applyPfx st v4 []
+  let t := if resetting then { t with shadow := some ⟨ptSrcRemove t.pt 0, ktSrcRemove t.kt 0⟩ } else t
+  let fail := fun (undone : Bool) (c : Conn) (n : Net) (t : Tbl) =>
+    let t := if undone then t else t.purge
+    match changeState c n t.own .errFatal with
+    | (c, n) => ({ ok := false, purged := !undone, c := c, n := n, t := t } : ApplyRes)
+  match applyPfx c n t v4 [] with
+  | (ok4, c, n, t, done4) =>
   if !ok4 then
-    let (undone, st) := undoAllPfx st done4
-    let st := if undone then st else purge st
-    (false, changeState st .errFatal)
+    match undoAllPfx t done4 with | (undone, t) => fail undone c n t
   else
-    let (ok6, st, done6) := applyPfx st v6 []
+    match applyPfx c n t v6 [] with
+    | (ok6, c, n, t, done6) =>
     if !ok6 then
-      let (un4, st) := undoAllPfx st v4
-      let (un6, st) := if un4 then undoAllPfx st done6 else (false, st)
-      let st := if un4 && un6 then st else purge st
-      (false, changeState st .errFatal)
+      match undoAllPfx t v4 with
+      | (un4, t) =>
+        match (if un4 then undoAllPfx t done6 else (false, t)) with
+        | (un6, t) => fail (un4 && un6) c n t
     else
-      let (okk, st, donek) := applyKey st keys []
+      match applyKey c n t keys [] with
+      | (okk, c, n, t, donek) =>
       if !okk then
-        let (un4, st) := undoAllPfx st v4
-        let (un6, st) := if un4 then undoAllPfx st v6 else (false, st)
-        let (unk, st) := if un4 && un6 then undoAllKey st donek else (false, st)
-        let st := if un4 && un6 && unk then st else purge st
-        (false, changeState st .errFatal)
+        match undoAllPfx t v4 with
+        | (un4, t) =>
+          match (if un4 then undoAllPfx t v6 else (false, t)) with
+          | (un6, t) =>
+            match (if un4 && un6 then undoAllKey t donek else (false, t)) with
+            | (unk, t) => fail (un4 && un6 && unk) c n t
       else
         -- success: a reload swaps the shadow tables in
-        let st := match st.shadow with
-          | some u => { st with pt := u.pt, kt := u.kt, shadow := none }
-          | none => st
-        (true, { st with s := { st.s with serial := be32 eod 8 } })
+        let t := match t.shadow with
+          | some u => ({ pt := u.pt, kt := u.kt, shadow := none } : Tbl)
+          | none => t
+        { ok := true, purged := false, c := c, n := n, t := t }
+
+/-- the End of Data branch: intervals, tables, serial number -/
+def applyBuffered (st : St) (eod : List Nat) (v4 v6 keys : List (List Nat)) : Bool × St :=
+  let tm := applyEodIntervals st.tm eod
+  let r := applyTables st.c st.n st.t st.ss.isResetting v4 v6 keys
+  let ss := if r.ok then { st.ss with serial := be32 eod 8 }
+            else if r.purged then { st.ss with reqSession := true } else st.ss
+  (r.ok, { c := r.c, ss := ss, tm := tm, n := r.n, t := r.t })
+
+/-- the `cleanup:` label -/
+def cleanup (r : Bool × St) : Bool × St :=
+  (r.1, { r.2 with t := { r.2.t with shadow := none }, ss := { r.2.ss with isResetting := false } })
 
 /-- the receive loop of `rtr_sync_receive_and_store_pdus`; `true` = RTR_SUCCESS.
     `fuel` bounds the number of PDUs (every iteration consumes at least 8 bytes of tape or ends). -/
-def recvAndStore (fuel : Nat) (st : St) (v4 v6 keys : List (List Nat)) : Bool × St :=
-  match fuel with
-  | 0 => (false, st)
-  | fuel + 1 =>
-    let cleanup := fun (r : Bool × St) => (r.1, { r.2 with shadow := none, s := { r.2.s with isResetting := false } })
-    match receivePdu st Gen.RTR_RECV_TIMEOUT with
-    | (.rc code, st) =>
-      if code = -2 then cleanup (false, changeState st .errTransport) else cleanup (false, st)
-    | (.ok raw, st) =>
+def recvAndStore : Nat → St → List (List Nat) → List (List Nat) → List (List Nat) → Bool × St
+  | 0, st, _, _, _ => (false, st)
+  | fuel + 1, st, v4, v6, keys =>
+    match receivePdu st.c st.n st.t.own Gen.RTR_RECV_TIMEOUT with
+    | (.rc code, c, n) =>
+      if code = -2 then
+        match changeState c n st.t.own .errTransport with
+        | (c, n) => cleanup (false, { st with c := c, n := n })
+      else cleanup (false, { st with c := c, n := n })
+    | (.ok raw, c, n) =>
+      let st := { st with c := c, n := n }
       match typeOf raw with
       | 4 => recvAndStore fuel st (v4 ++ [raw]) v6 keys
       | 6 => recvAndStore fuel st v4 (v6 ++ [raw]) keys
       | 9 => recvAndStore fuel st v4 v6 (keys ++ [raw])
       | 7 =>
-        if be16 raw 2 ≠ st.s.session then
-          let (_, st) := sendErrorFromHost st raw raw.length 0 (txtEodSession st.s.session (be16 raw 2))
-          cleanup (false, changeState st .errFatal)
+        if be16 raw 2 ≠ st.ss.session then
+          match sendErrorFromHost st.c st.n raw raw.length 0 (txtEodSession st.ss.session (be16 raw 2)) with
+          | (_, n) =>
+            match changeState st.c n st.t.own .errFatal with
+            | (c, n) => cleanup (false, { st with c := c, n := n })
         else cleanup (applyBuffered st raw v4 v6 keys)
-      | 10 => cleanup (false, handleErrorPdu st raw)
+      | 10 =>
+        match handleErrorPdu st.c st.n st.t.own raw with
+        | (c, n) => cleanup (false, { st with c := c, n := n })
       | 0 => recvAndStore fuel st v4 v6 keys                    -- Serial Notify is ignored
       | _ =>
-        let (_, st) := sendErrorFromHost st raw 8 0 txtUnexpectedSync
-        cleanup (false, st)
+        match sendErrorFromHost st.c st.n raw 8 0 txtUnexpectedSync with
+        | (_, n) => cleanup (false, { st with n := n })
+
+/-- the first loop of `rtr_sync`: skip Serial Notify PDUs; `none` = the exchange failed here -/
+def syncFirst : Nat → St → Option (List Nat) × St
+  | 0, st => (none, st)
+  | fuel + 1, st =>
+    match receivePdu st.c st.n st.t.own Gen.RTR_RECV_TIMEOUT with
+    | (.rc code, c, n) =>
+      if code = -4 ∧ st.ss.reqSession ∧ c.version > Gen.RTR_PROTOCOL_MIN_SUPPORTED_VERSION then
+        match changeState { c with version := c.version - 1 } n st.t.own .fastReconnect with
+        | (c, n) => (none, { st with c := c, n := n })
+      else if code = -2 then
+        match changeState c n st.t.own .errTransport with
+        | (c, n) => (none, { st with c := c, n := n })
+      else (none, { st with c := c, n := n })
+    | (.ok raw, c, n) =>
+      if typeOf raw = 0 then syncFirst fuel { st with c := c, n := n } else (some raw, { st with c := c, n := n })
 
 /-- `rtr_sync`; `true` = RTR_SUCCESS -/
 def sync (fuel : Nat) (st : St) : Bool × St :=
-  let rec first (fuel : Nat) (st : St) : Option (List Nat) × St :=
-    match fuel with
-    | 0 => (none, st)
-    | fuel + 1 =>
-      match receivePdu st Gen.RTR_RECV_TIMEOUT with
-      | (.rc code, st) =>
-        if code = -4 ∧ st.s.reqSession ∧ st.s.version > Gen.RTR_PROTOCOL_MIN_SUPPORTED_VERSION then
-          (none, changeState { st with s := { st.s with version := st.s.version - 1 } } .fastReconnect)
-        else if code = -2 then (none, changeState st .errTransport)
-        else (none, st)
-      | (.ok raw, st) => if typeOf raw = 0 then first fuel st else (some raw, st)
-  match first fuel st with
+  match syncFirst fuel st with
   | (none, st) => (false, st)
   | (some raw, st) =>
     match typeOf raw with
-    | 10 => (false, handleErrorPdu st raw)
-    | 8 => (false, changeState st .errNoIncr)
+    | 10 => match handleErrorPdu st.c st.n st.t.own raw with | (c, n) => (false, { st with c := c, n := n })
+    | 8 => match changeState st.c st.n st.t.own .errNoIncr with | (c, n) => (false, { st with c := c, n := n })
     | 3 =>
-      let (ok, st) := handleCacheResponse st raw
-      if !ok then (false, st)
-      else
-        let (ok, st) := recvAndStore fuel st [] [] []
+      match handleCacheResponse st.c st.ss st.n st.t.own raw with
+      | (ok, c, ss, n) =>
+        let st := { st with c := c, ss := ss, n := n }
         if !ok then (false, st)
-        else (true, { st with s := { st.s with reqSession := false, lastUpdate := st.now } })
+        else
+          match recvAndStore fuel st [] [] [] with
+          | (ok, st) =>
+            if !ok then (false, st)
+            else (true, { st with ss := { st.ss with reqSession := false, lastUpdate := st.n.now } })
     | _ =>
-      let (_, st) := sendErrorFromHost st raw 8 0 txtUnexpectedSync2
-      (false, st)
+      match sendErrorFromHost st.c st.n raw 8 0 txtUnexpectedSync2 with
+      | (_, n) => (false, { st with n := n })
 
 /-- `rtr_wait_for_sync`; `true` = RTR_SUCCESS -/
 def waitForSync (st : St) : Bool × St :=
-  let wait := (st.s.lastUpdate + st.s.refresh) - st.now
+  let wait := (st.ss.lastUpdate + st.tm.refresh) - st.n.now
   let wait := if wait < 0 then 0 else wait
-  match receivePdu st wait with
-  | (.ok raw, st) => (typeOf raw = 0, st)
-  | (.rc code, st) => (code = -2, st)
+  match receivePdu st.c st.n st.t.own wait with
+  | (.ok raw, c, n) => (typeOf raw = 0, { st with c := c, n := n })
+  | (.rc code, c, n) => (code = -2, { st with c := c, n := n })
 
 /-! ## queries -/
 
+def serialQueryBytes (ver sess sn : Nat) : List Nat := [ver % 256, 1] ++ toBE16 sess ++ toBE32 12 ++ toBE32 sn
+def resetQueryBytes (ver : Nat) : List Nat := [ver % 256, 2, 0, 0] ++ toBE32 8
+
 def sendSerialQuery (st : St) : Bool × St :=
-  let pdu := [st.s.version % 256, 1] ++ toBE16 st.s.session ++ toBE32 12 ++ toBE32 st.s.serial
-  let (ok, st) := sendPdu st pdu
-  if ok then (true, st) else (false, changeState st .errTransport)
+  match sendPdu st.c st.n (serialQueryBytes st.c.version st.ss.session st.ss.serial) with
+  | (ok, n) =>
+    if ok then (true, { st with n := n })
+    else match changeState st.c n st.t.own .errTransport with | (c, n) => (false, { st with c := c, n := n })
 
 def sendResetQuery (st : St) : Bool × St :=
-  let pdu := [st.s.version % 256, 2, 0, 0] ++ toBE32 8
-  let (ok, st) := sendPdu st pdu
-  if ok then (true, st) else (false, changeState st .errTransport)
+  match sendPdu st.c st.n (resetQueryBytes st.c.version) with
+  | (ok, n) =>
+    if ok then (true, { st with n := n })
+    else match changeState st.c n st.t.own .errTransport with | (c, n) => (false, { st with c := c, n := n })
 
 /-! ## the state machine -/
 
 /-- `rtr_purge_outdated_records` -/
 def purgeOutdated (st : St) : St :=
-  if st.s.lastUpdate = 0 then st
-  else if st.s.lastUpdate + st.s.expire < st.now then
-    { st with pt := ptSrcRemove st.pt 0, kt := ktSrcRemove st.kt 0,
-              s := { st.s with reqSession := true, serial := 0, lastUpdate := 0, isResetting := true } }
+  if st.ss.lastUpdate = 0 then st
+  else if st.ss.lastUpdate + st.tm.expire < st.n.now then
+    { st with t := st.t.purge,
+              ss := { st.ss with reqSession := true, serial := 0, lastUpdate := 0, isResetting := true } }
   else st
 
 def sortStrings (l : List String) : List String := l.mergeSort (fun a b => decide (a ≤ b))
@@ -587,92 +655,98 @@ def recStr (r : Rec) : String :=
   s!"{if r.v6 then 6 else 4}:{addrHex r.v6 r.addr}/{r.len}-{r.maxLen}:{r.asn}:{r.src}"
 def keyStr (k : KeyRec) : String := s!"{k.asn}:{hex k.ski}:{hex k.spki}:{k.src}"
 
-def dumpLines (tag : String) (st : St) : List String :=
-  [" ".intercalate ((tag ++ " pfx") :: sortStrings (st.pt.map recStr)),
-   " ".intercalate ((tag ++ " keys") :: sortStrings (st.kt.map keyStr))]
+def dumpLines (tag : String) (t : Tbl) : List String :=
+  [" ".intercalate ((tag ++ " pfx") :: sortStrings (t.pt.map recStr)),
+   " ".intercalate ((tag ++ " keys") :: sortStrings (t.kt.map keyStr))]
 
 /-- `tr_open` on the scripted transport -/
 def trOpen (st : St) : Int × St :=
-  let (rc, q) := match st.openQ with | [] => ((0 : Int), []) | x :: q => (x, q)
-  let st := { st with openQ := q }
-  let st := (dumpLines "T" st).foldl (fun st l => st.emit l) st
-  (rc, st.emit s!"O {rc} {st.now} {st.s.expire}")
+  match (match st.n.openQ with | [] => ((0 : Int), ([] : List Int)) | x :: q => (x, q)) with
+  | (rc, q) =>
+    let n := { st.n with openQ := q }
+    let n := (dumpLines "T" st.t).foldl (fun n l => n.emit l) n
+    (rc, { st with n := n.emit s!"O {rc} {n.now} {st.tm.expire}" })
 
-def trClose (st : St) : St := st.emit "C"
+def trClose (st : St) : St := { st with n := st.n.emit "C" }
+def doSleep (st : St) (k : Nat) : St := { st with n := ({ st.n with now := st.n.now + k }).emit s!"Z {k}" }
+
+def St.change (st : St) (new : SState) : St :=
+  match changeState st.c st.n st.t.own new with | (c, n) => { st with c := c, n := n }
 
 /-- number of 8-byte units on the tape: a bound on the number of PDUs a run can still receive -/
-def tapeFuel (st : St) : Nat :=
-  st.tape.foldl (fun n ev => match ev with | .rx b => n + b.length / 8 + 1 | _ => n + 1) 10
-
-/-- route-origin validation over the abstract prefix table (RFC 6811; by C01/C02 this is what
-    pfx_table_validate answers on the concrete table) -/
-def validate (st : St) (v6 : Bool) (asn : Nat) (q : Nat) (n : Nat) : String :=
-  let w := if v6 then 128 else 32
-  let cov := st.pt.filter fun r => r.v6 == v6 && decide (r.len ≤ n) && prefixEq w r.addr q r.len
-  if cov.any (fun r => r.asn != 0 && r.asn == asn && decide (n ≤ r.maxLen)) then "VALID"
-  else if cov.isEmpty then "NOTFOUND" else "INVALID"
-def doSleep (st : St) (n : Nat) : St := ({ st with now := st.now + n }).emit s!"Z {n}"
+def tapeFuel (n : Net) : Nat :=
+  n.tape.foldl (fun k ev => match ev with | .rx b => k + b.length / 8 + 1 | _ => k + 1) 10
 
 /-- one iteration of the `while (1)` loop of `rtr_fsm_start`; `none` = the thread exits -/
 def fsmStep (fuel : Nat) (st : St) : Option St :=
-  match st.s.state with
+  match st.c.state with
   | .connecting =>
-    let st := { st with s := { st.s with hasReceived := false } }
+    let st := { st with c := { st.c with hasReceived := false } }
     let st := purgeOutdated st
-    let (rc, st) := trOpen st
-    if rc = -1 then some (changeState st .errTransport)
-    else if st.s.reqSession then some (changeState st .reset)
-    else
-      let (ok, st) := sendSerialQuery st
-      if ok then some (changeState st .sync) else some (changeState st .errFatal)
+    match trOpen st with
+    | (rc, st) =>
+      if rc = -1 then some (st.change .errTransport)
+      else if st.ss.reqSession then some (st.change .reset)
+      else
+        match sendSerialQuery st with
+        | (ok, st) => if ok then some (st.change .sync) else some (st.change .errFatal)
   | .reset =>
-    let (ok, st) := sendResetQuery st
-    if ok then some (changeState st .sync) else some st
+    match sendResetQuery st with
+    | (ok, st) => if ok then some (st.change .sync) else some st
   | .sync =>
-    let (ok, st) := sync fuel st
-    if ok then some (changeState st .established) else some st
+    match sync fuel st with
+    | (ok, st) => if ok then some (st.change .established) else some st
   | .established =>
-    let (ok, st) := waitForSync st
-    if ok then
-      let (ok2, st) := sendSerialQuery st
-      if ok2 then some (changeState st .sync) else some st
-    else some st
-  | .fastReconnect => some (changeState (trClose st) .connecting)
+    match waitForSync st with
+    | (ok, st) =>
+      if ok then
+        match sendSerialQuery st with
+        | (ok2, st) => if ok2 then some (st.change .sync) else some st
+      else some st
+  | .fastReconnect => some ((trClose st).change .connecting)
   | .errNoData =>
-    let st := { st with s := { st.s with reqSession := true, serial := 0 } }
-    let st := changeState st .reset
-    some (purgeOutdated (doSleep st st.s.retry))
+    let st := { st with ss := { st.ss with reqSession := true, serial := 0 } }
+    let st := st.change .reset
+    some (purgeOutdated (doSleep st st.tm.retry))
   | .errNoIncr =>
-    let st := { st with s := { st.s with reqSession := true, serial := 0 } }
-    some (purgeOutdated (changeState st .reset))
+    let st := { st with ss := { st.ss with reqSession := true, serial := 0 } }
+    some (purgeOutdated (st.change .reset))
   | .errTransport =>
-    let st := changeState (trClose st) .connecting
-    some (doSleep st st.s.retry)
+    let st := (trClose st).change .connecting
+    some (doSleep st st.tm.retry)
   | .errFatal =>
-    let st := changeState (trClose st) .connecting
-    some (doSleep st st.s.retry)
+    let st := (trClose st).change .connecting
+    some (doSleep st st.tm.retry)
   | .shutdown => none
   | .closed => some st      -- not a state of the running machine; the C loop spins here
 
 /-- `rtr_fsm_start` run to the end of the script -/
-def fsmRun (steps fuel : Nat) (st : St) : St :=
-  match steps with
-  | 0 => st.emit "fuel-exhausted"
-  | steps + 1 =>
+def fsmRun : Nat → Nat → St → St
+  | 0, _, st => { st with n := st.n.emit "fuel-exhausted" }
+  | steps + 1, fuel, st =>
     match fsmStep fuel st with
     | none => st
     | some st' => fsmRun steps fuel st'
 
 def fsmStart (steps fuel : Nat) (st : St) : St :=
-  if st.s.state = .shutdown then st
-  else fsmRun steps fuel { st with s := { st.s with state := .connecting }, threaded := true }
+  if st.c.state = .shutdown then st
+  else fsmRun steps fuel { st with c := { st.c with state := .connecting }, n := { st.n with threaded := true } }
 
 /-- `rtr_stop` after the state machine thread has ended -/
 def stop (st : St) : St :=
-  let st := changeState st .shutdown
+  let st := st.change .shutdown
   let st := trClose st
-  { st with pt := ptSrcRemove st.pt 0, kt := ktSrcRemove st.kt 0, threaded := false,
-            s := { st.s with reqSession := true, serial := 0, lastUpdate := 0, state := .closed } }
+  { st with t := st.t.purge, n := { st.n with threaded := false },
+            ss := { st.ss with reqSession := true, serial := 0, lastUpdate := 0 },
+            c := { st.c with state := .closed } }
+
+/-- route-origin validation over the abstract prefix table (RFC 6811; by C01/C02 this is what
+    pfx_table_validate answers on the concrete table) -/
+def validate (t : Tbl) (v6 : Bool) (asn : Nat) (q : Nat) (n : Nat) : String :=
+  let w := if v6 then 128 else 32
+  let cov := t.pt.filter fun r => r.v6 == v6 && decide (r.len ≤ n) && prefixEq w r.addr q r.len
+  if cov.any (fun r => r.asn != 0 && r.asn == asn && decide (n ≤ r.maxLen)) then "VALID"
+  else if cov.isEmpty then "NOTFOUND" else "INVALID"
 
 end P
 end Rtr
